@@ -33,6 +33,8 @@ type facts struct {
 	sharpUnderLock bool
 	lastByIdentity bool
 	mainExitsNonZero bool
+	exitHelpers      [][2]string
+	actionExits      []string
 	exitCodes     map[string]int
 	listSymbols   []string
 	spreadLocked  bool // defaultSpreaderPipeline.worker calls spreadBranch between Lock/Unlock
@@ -139,6 +141,9 @@ func (f *facts) scanFile(fset *token.FileSet, rel string, file *ast.File) {
 	for _, d := range file.Decls {
 		switch x := d.(type) {
 		case *ast.GenDecl:
+			if x.Tok == token.CONST && file.Name.Name == "main" {
+				f.evalConstBlock(x)
+			}
 			for _, s := range x.Specs {
 				vs, ok := s.(*ast.ValueSpec)
 				if !ok {
@@ -149,9 +154,6 @@ func (f *facts) scanFile(fset *token.FileSet, rel string, file *ast.File) {
 						if bl, ok := vs.Values[i].(*ast.BasicLit); ok {
 							f.consts[name.Name] = bl.Value
 						}
-					}
-					if x.Tok == token.CONST && strings.HasPrefix(name.Name, "exitCode") {
-						f.exitCodes[name.Name] = len(f.exitCodes) + 1 // iota + 1 in declaration order
 					}
 					if x.Tok == token.VAR && file.Name.Name == "gtree" && name.Name != "_" {
 						isErr := false
@@ -180,6 +182,59 @@ func (f *facts) scanFile(fset *token.FileSet, rel string, file *ast.File) {
 			f.scanFunc(fset, rel, x)
 		}
 	}
+}
+
+// evalConstBlock evaluates the integer constants of one const declaration (iota, implicit repetition of the
+// previous expression, + - * and parentheses over integer literals, iota and earlier constants).
+func (f *facts) evalConstBlock(gd *ast.GenDecl) {
+	var last []ast.Expr
+	for idx, s := range gd.Specs {
+		vs, ok := s.(*ast.ValueSpec)
+		if !ok {
+			continue
+		}
+		if len(vs.Values) > 0 {
+			last = vs.Values
+		}
+		for i, name := range vs.Names {
+			if i < len(last) {
+				if v, ok := f.evalInt(last[i], idx); ok {
+					f.exitCodes[name.Name] = v
+				}
+			}
+		}
+	}
+}
+
+func (f *facts) evalInt(e ast.Expr, iota int) (int, bool) {
+	switch x := e.(type) {
+	case *ast.BasicLit:
+		v, err := strconv.Atoi(x.Value)
+		return v, err == nil
+	case *ast.Ident:
+		if x.Name == "iota" {
+			return iota, true
+		}
+		v, ok := f.exitCodes[x.Name]
+		return v, ok
+	case *ast.ParenExpr:
+		return f.evalInt(x.X, iota)
+	case *ast.BinaryExpr:
+		a, ok1 := f.evalInt(x.X, iota)
+		b, ok2 := f.evalInt(x.Y, iota)
+		if !ok1 || !ok2 {
+			return 0, false
+		}
+		switch x.Op {
+		case token.ADD:
+			return a + b, true
+		case token.SUB:
+			return a - b, true
+		case token.MUL:
+			return a * b, true
+		}
+	}
+	return 0, false
 }
 
 // inGuardedSelect: is this send the Comm of a CommClause in a select that also has a <-ctx.Done() case?
@@ -258,6 +313,10 @@ func (f *facts) scanFunc(fset *token.FileSet, rel string, fd *ast.FuncDecl) {
 					}
 					f.errChanCap[where] = c
 				}
+			case fn == "cli.Exit" && strings.HasPrefix(rel, filepath.Join("cmd", "gtree")) && len(x.Args) == 2:
+				f.exitHelpers = append(f.exitHelpers, [2]string{name, exprStr(x.Args[1])})
+			case strings.HasPrefix(fn, "exitErr") && strings.HasPrefix(rel, filepath.Join("cmd", "gtree")):
+				f.actionExits = append(f.actionExits, name+":"+fn)
 			case fn == "os.Exit" && rel == filepath.Join("cmd", "gtree", "main.go") && name == "main":
 				if len(x.Args) == 1 && exprStr(x.Args[0]) != "0" {
 					f.mainExitsNonZero = true
@@ -409,6 +468,22 @@ func (f *facts) render() string {
 	w("def spreadBranchUnderLock : Bool := %s\n", leanBool(f.spreadLocked))
 	w("def lastByIdentity : Bool := %s\n", leanBool(f.lastByIdentity))
 	w("def mainExitsNonZeroOnError : Bool := %s\n", leanBool(f.mainExitsNonZero))
+	var ec []string
+	for _, h := range f.exitHelpers {
+		// the status a helper exits with: its second argument to cli.Exit, evaluated; an argument that is not an
+		// integer constant of the package is rendered as 0 (the theorems then fail: nothing is known about it)
+		v, ok := f.exitCodes[h[1]]
+		if n, err := strconv.Atoi(h[1]); err == nil {
+			v, ok = n, true
+		}
+		if !ok {
+			v = 0
+		}
+		ec = append(ec, fmt.Sprintf("(%s, %d)", strconv.Quote(h[0]), v))
+	}
+	sort.Strings(ec)
+	w("\n/-- cmd/gtree: the exit status of every helper that calls cli.Exit (constant expressions evaluated) -/\ndef cliExitCodes : List (String × Nat) := [%s]\n", strings.Join(ec, ", "))
+	w("/-- cmd/gtree: which function reports through which helper -/\ndef cliActionExits : List String := %s\n", leanStrList(uniq(f.actionExits)))
 	w("def listSymbols : List String := %s\n", leanStrList(f.listSymbols))
 	w("def verifierMutatingCalls : List String := %s\n", leanStrList(uniq(f.verifierMutates)))
 	var al []string
